@@ -455,4 +455,28 @@ theorem placeChk_valid (c s a τ : Rat) (t : Pt) (sh : Shape) (h : validOrientat
     placeChk c s a τ t sh = .ok (place c s a τ t sh) := by
   cases sh <;> simp [placeChk, h]
 
+
+/-- `occupancy_shape_from_state(shape, state)` for an EXACT state is ONE call `shape.rotate_translate_local(state.position,
+    state.orientation)` — position as translation, orientation as angle, in this order; the uncertain branches are not taken. -/
+theorem tie_occupancy_shape_exact (τ : Rat) (cosf sinf : Rat → Rat) (sh : Shape) (pos : Pt) (ori : Rat) :
+    Gen.occupancy_shape_from_state_exact τ cosf sinf sh pos ori = placeChk (cosf ori) (sinf ori) ori τ pos sh := by
+  unfold Gen.occupancy_shape_from_state_exact
+  cases placeChk (cosf ori) (sinf ori) ori τ pos sh <;> rfl
+
+/-- `occupancy_shape_from_state` for an UNCERTAIN pose of a rectangle / polygon shape (orientation interval [olo, ohi], position
+    region of rectangle / polygon kind) as the CURRENT source computes it: the model's `enclose` — the rectangle
+    `(ls + lv + |(1 - cos δ_l)·lv - sin δ_l·wv|) × (ws + wv + |(1 - cos δ_w)·wv - sin δ_w·lv|)` with `δ_l = min(Δψ, arctan(wv/lv))`,
+    `δ_w = min(Δψ, arctan(lv/wv))`, `Δψ` half the interval length, centred at region centre + shape centre, oriented along the
+    middle of the interval; the position region is measured after turning it by MINUS that middle orientation.  This is the
+    formula `C04_enclosure` (CRProps/C04.lean) is about: `C04_enclose_encloses`. -/
+theorem tie_uncertain_enclosure (cosf sinf arctanf : Rat → Rat) (lv wv : Rat) (sc : Pt) (olo ohi ls ws : Rat) (pc : Pt)
+    (hl : lv ≠ 0) (hw : wv ≠ 0) :
+    Gen.occupancy_shape_from_state_uncertain cosf sinf arctanf lv wv sc olo ohi ls ws pc =
+      .ok (enclose (cosf (min ((1 / 2) * (ohi - olo)) (arctanf (wv / lv)))) (sinf (min ((1 / 2) * (ohi - olo)) (arctanf (wv / lv))))
+            (cosf (min ((1 / 2) * (ohi - olo)) (arctanf (lv / wv)))) (sinf (min ((1 / 2) * (ohi - olo)) (arctanf (lv / wv))))
+            lv wv ls ws (Pt.add pc sc) (olo + (1 / 2) * (ohi - olo))) := by
+  unfold Gen.occupancy_shape_from_state_uncertain
+  simp only [CR.Py.div, hl, hw, if_false, extentOf, absR, absQ, enclose, bind, Except.bind, pure, Except.pure]
+  first | rfl | (congr 1) | (simp; exact ⟨rfl, rfl⟩)
+
 end CR.Place
